@@ -1,1 +1,37 @@
-fn main() {}
+//! Conformance harness for the grammar / law properties of zvariant, zvariant_utils and zbus_names
+//! (C06 signatures, C10 names and object paths, C08 laws of dynamic values).
+//!
+//! Usage: gram <command> [args...]
+//!   obs-sig   <cases> <out> [<merge-with>]   observe the signature API on TLC-emitted cases
+//!   rand-sig  <n> <seed> <out>               seeded random long signatures (cases only)
+//!   obs-names <cases> <out>                  observe every construction path of the name types
+//!   laws      <tables> <seed> <out>          observation tables of dynamic values
+//! The harness only observes; every verdict is taken by TLC (spec/trace/*.tla).
+#[path = "../../wire/src/model.rs"]
+mod model;
+
+mod cases;
+mod laws;
+mod names;
+mod sig;
+
+fn main() {
+    // panics inside the code under test are data: keep them quiet, they are reported per case
+    std::panic::set_hook(Box::new(|_| {}));
+    let args: Vec<String> = std::env::args().collect();
+    if args.len() < 2 {
+        eprintln!("usage: gram <command> ...");
+        std::process::exit(2);
+    }
+    let rest = &args[2..];
+    match args[1].as_str() {
+        "obs-sig" => sig::cmd_obs(rest),
+        "rand-sig" => sig::cmd_rand(rest),
+        "obs-names" => names::cmd_obs(rest),
+        "laws" => laws::cmd_laws(rest),
+        other => {
+            eprintln!("unknown command {other}");
+            std::process::exit(2);
+        }
+    }
+}
